@@ -1,0 +1,24 @@
+// SPDX-FileCopyrightText: 2026 The Pion community <https://pion.ly>
+// SPDX-License-Identifier: MIT
+
+//go:build verif
+
+package twcc
+
+// C12ArrivalMap wraps the unexported packetArrivalTimeMap (property C12:
+// capacity of the ring). Only compiled with the "verif" build tag.
+type C12ArrivalMap struct{ m packetArrivalTimeMap }
+
+// AddPacket calls AddPacket.
+func (v *C12ArrivalMap) AddPacket(seq, arrival int64) { v.m.AddPacket(seq, arrival) }
+
+// EraseTo calls EraseTo.
+func (v *C12ArrivalMap) EraseTo(seq int64) { v.m.EraseTo(seq) }
+
+// RemoveOldPackets calls RemoveOldPackets.
+func (v *C12ArrivalMap) RemoveOldPackets(seq, limit int64) { v.m.RemoveOldPackets(seq, limit) }
+
+// Sizes returns (capacity, begin, end).
+func (v *C12ArrivalMap) Sizes() (int, int64, int64) {
+	return v.m.capacity(), v.m.beginSequenceNumber, v.m.endSequenceNumber
+}
